@@ -166,6 +166,11 @@ def run(ctx):
             ctx.violation("dispatcher:%s:merge-overlap" % tag, "two threads inside MergeWorker (%s)" % where,
                           {"cfg": b, "schedule": [s["t"] for s in run["steps"]]})
             return False
+        if e.get("topo_differs"):
+            ctx.violation("dispatcher:%s:worker-topology-differs" % tag,
+                          "a worker analysed its frame on a topology that differs from worker 0's (beads / bonded interactions / exclusions) (%s)" % where,
+                          {"cfg": b, "schedule": [s["t"] for s in run["steps"]]})
+            return False
         if e["bad_unlock"]:
             ctx.violation("dispatcher:%s:bad-unlock" % tag, "unlock of an unlocked mutex (%s)" % where,
                           {"cfg": b, "schedule": [s["t"] for s in run["steps"]]})
